@@ -14,6 +14,37 @@ TB = ("Trusted: Coq 8.16.1 kernel + VM (vm_compute, no native_compute), no "
       "CPython 3.12. ")
 
 CHECKS = {
+    "C06": dict(
+        text="Theorems over the model of Response/FileObjResponse/"
+             "GeneratorResponse: for EVERY history of write()/.data calls the "
+             "tracked length equals the buffer (induction over the history); "
+             "for every representation and range list the emitted "
+             "Content-Length is present exactly when the body is non-empty "
+             "and is the decimal body length. Correspondence on write "
+             "histories; monitor int(Content-Length)==len(body) at the WSGI "
+             "boundary over all classes, offsets, status codes and built-in "
+             "pages.",
+        design="7/C06",
+        note="io.BytesIO/file seek+read semantics as modelled; a "
+             "non-seekable stream has unknown size (outside the property); "
+             "known finding body-on-204.",
+        technique="Coq proof (induction over write history, lia) + "
+                  "vm_compute correspondence"),
+    "C07": dict(
+        text="Theorems: the window computed by __start_response__ equals an "
+             "independent RFC 9110 oracle for every length L>=0 and every "
+             "valid range (lia); buffer, file-object-from-offset and "
+             "chunk-generator answers (status, Content-Range, Content-Length, "
+             "body) equal the RFC answer for every content, every write "
+             "history and EVERY chunking (structural induction over the chunk "
+             "list, via an index-selection characterisation of slicing). "
+             "Correspondence + Python RFC oracle on the property's exhaustive "
+             "grid through the real classes and an end-to-end Range header.",
+        design="7/C07",
+        note="seek/read of BytesIO and files as modelled (ztake/zdrop); "
+             "parse_range is covered by C18 and the end-to-end monitor.",
+        technique="Coq proof (lia + list induction) + vm_compute "
+                  "correspondence"),
     "C16": dict(
         text="Theorems over the model of get_token/check_token for every "
              "secret, client, T>0 and instants t0,t1>=0 (verify <-> aligned "
